@@ -586,6 +586,11 @@ func (f *memFile) Write(p []byte) (int, error) {
 	if f.n.mode.IsDir() {
 		return 0, os.ErrInvalid
 	}
+	if len(p) == 0 {
+		// A zero-length write has no effect; in particular it does not
+		// extend the file up to an offset beyond its end.
+		return 0, nil
+	}
 	if f.pos < len(f.n.data) {
 		n := copy(f.n.data[f.pos:], p)
 		f.pos += n
